@@ -306,8 +306,8 @@ func checkXzWriter(prop string) func(a *checkArgs, r *Result) error {
 			return nil
 		}
 		rng := rand.New(rand.NewSource(a.seed))
-		n := 320
-		big := 4
+		n := 900
+		big := 6
 		if a.tier == "thorough" {
 			n, big = 4000, 40
 		}
@@ -318,6 +318,19 @@ func checkXzWriter(prop string) func(a *checkArgs, r *Result) error {
 				Data: hxe(append([]byte{0}, bytes.Repeat([]byte("abcdefgh"), 200)...)), Parts: []int{1601}},
 			xzCase{Op: "xzwrite", Name: "corpus/F2-small-dict-random", Cfg: xzCfg{LC: 3, PB: 2, DictCap: 4096, BufSize: 4096},
 				Data: hxe(genRandom(rand.New(rand.NewSource(5)), 200000)), Parts: []int{200000}})
+		noise := genRandom(rand.New(rand.NewSource(9)), 140000)
+		cases = append(cases, xzCase{Op: "xzwrite", Name: "corpus/raw-raw-compressed", Cfg: xzCfg{LC: 3, PB: 2, DictCap: 1 << 20, BufSize: 4096},
+			Data: hxe(append(append([]byte{}, noise...), genText(rng, 30000)...)), Parts: []int{170000}})
+		for i := 0; i < big*2; i++ { // regime switches: several raw chunks, then compressible data, and back
+			var d []byte
+			for k := 0; k < 2+rng.Intn(3); k++ {
+				d = append(d, genRandom(rng, 66000+rng.Intn(80000))...)
+				d = append(d, genText(rng, 1000+rng.Intn(40000))...)
+			}
+			c := pickXzCfg(rng, 0)
+			c.Matcher, c.DictCap, c.BlockSize = 0, []int{65536, 1 << 20}[rng.Intn(2)], 0
+			cases = append(cases, xzCase{Op: "xzwrite", Name: fmt.Sprintf("regimes/%d", len(d)), Cfg: c, Data: hxe(d), Parts: partition(rng, len(d))})
+		}
 		for i := 0; i < n; i++ {
 			c := pickXzCfg(rng, i)
 			name, data := pickData(rng, maxData(c, i < big*4 && i%4 == 0))
@@ -342,6 +355,8 @@ func checkXzWriter(prop string) func(a *checkArgs, r *Result) error {
 			c := xzCfg{LC: 3, PB: 2, DictCap: 1 << 20, BufSize: 4096}
 			cases = append(cases, xzCase{Op: "xzwrite", Name: fmt.Sprintf("big/%d", len(data)), Cfg: c, Data: hxe(data), Parts: []int{len(data)}})
 		}
+		rep := bytes.Repeat([]byte("all work and no play makes jack a dull boy. "), 58000)
+		cases = append(cases, xzCase{Op: "xzwrite", Name: fmt.Sprintf("big/repetitive/%d", len(rep)), Cfg: xzCfg{LC: 3, PB: 2, DictCap: 1 << 20, BufSize: 4096}, Data: hxe(rep), Parts: []int{len(rep)}})
 		var wg sync.WaitGroup
 		sem := make(chan struct{}, 16)
 		for _, cs := range cases {
@@ -354,6 +369,13 @@ func checkXzWriter(prop string) func(a *checkArgs, r *Result) error {
 			}(cs)
 		}
 		wg.Wait()
+		nscript := 400
+		if a.tier == "thorough" {
+			nscript = 6000
+		}
+		if err := scriptedOpsTie(r, dp, rng, nscript, true); err != nil {
+			return err
+		}
 		if prop == "C01" {
 			afterCloseChecks(r, rng)
 			// partition independence / determinism
